@@ -70,7 +70,9 @@ def generate(rng, index: int, tier: str) -> dict:
     gen = rng.choice([4, 5])
     frames = []
     for i in range(PER_RUN):
-        if rng.random() < 0.55:
+        if rng.random() < 0.06:
+            f, _k = framegen.maximal_frame(rng, gen)  # a defined message at the largest size its layout allows
+        elif rng.random() < 0.55:
             f, _k = framegen.frame(rng, gen)
             if rng.random() < 0.15:
                 f = _zero_temp_frame(rng, gen)
